@@ -1,0 +1,47 @@
+//go:build verif
+
+package network
+
+// Contracts for the deductive verifier in /verif (govc). Comment-only file: it
+// declares nothing, so the build is identical with and without the tag.
+
+// Shape invariant of every network graph: links and their endpoints are never nil.
+//@ pred linksWF() = forall m *NNode :: m != nil ==> (forall i :: 0 <= i && i < len(m.Incoming) ==> m.Incoming[i] != nil && m.Incoming[i].InNode != nil)
+
+// ---- C14: activation depth -----------------------------------------------------------------------
+// Modular over the recursion: the recursive call is replaced by this very contract (partial correctness).
+//@ func (*NNode).Depth
+//@   props C14
+//@   requires n != nil
+//@   requires linksWF()
+//@   requires !n.visited
+//@   requires ErrMaximalNetDepthExceeded != nil
+//@   modifies NNode.visited
+//@   noalloc
+//@   ensures [marks] forall m *NNode :: m.visited == old(m.visited)
+//@   ensures [lower] result1 == nil ==> result0 >= d
+//@   ensures [capErr] result1 != nil ==> maxDepthCap > 0 && result0 == maxDepthCap
+//@   ensures [capOk] maxDepthCap > 0 && result1 == nil ==> result0 <= maxDepthCap
+//@   loop 1:
+//@     invariant 0 <= #idx + 1 && #idx < len(n.Incoming)
+//@     invariant n.visited && (forall m *NNode :: m != n ==> m.visited == old(m.visited))
+//@     invariant max >= d
+//@     invariant maxDepthCap > 0 ==> max <= maxDepthCap && d <= maxDepthCap
+//@ func (*Network).MaxActivationDepthWithCap
+//@   props C14
+//@   requires n != nil
+//@   requires linksWF()
+//@   requires forall i :: 0 <= i && i < len(n.Outputs) ==> n.Outputs[i] != nil
+//@   requires forall m *NNode :: !m.visited
+//@   requires ErrMaximalNetDepthExceeded != nil
+//@   modifies NNode.visited
+//@   ensures [marks] forall m *NNode :: !m.visited
+//@   ensures [modular] len(n.controlNodes) > 0 ==> result1 != nil
+//@   ensures [shortcut] len(n.controlNodes) == 0 && len(n.allNodes) == len(n.inputs) + len(n.Outputs) ==> result0 == 1 && result1 == nil
+//@   ensures [nonneg] result1 == nil ==> result0 >= 0
+//@   ensures [capErr] len(n.controlNodes) == 0 && result1 != nil ==> maxDepthCap > 0 && result0 == maxDepthCap
+//@   ensures [capOk] len(n.controlNodes) == 0 && maxDepthCap > 0 && result1 == nil ==> result0 <= max(maxDepthCap, 1)
+//@   loop 1:
+//@     invariant 0 <= #idx + 1 && #idx < len(n.Outputs)
+//@     invariant forall m *NNode :: !m.visited
+//@     invariant maxDepth >= 0 && (maxDepthCap > 0 ==> maxDepth <= maxDepthCap)
